@@ -478,6 +478,21 @@ func (x *c12exec) run(e common.Env, p *common.Part) *c12fail {
 					return fail("completed-without-quorum", fmt.Sprintf("Sign at node %d succeeded although too few signers took part", u), false)
 				}
 			}
+		case "sign-too-many":
+			// every node joins the topic although only Threshold+1 are expected: the membership synchroniser reports the surplus as
+			// an error while the callers' contexts are still alive (a session that FAILED rather than timed out); no outcome is
+			// demanded of it, the successful session that follows on the same topic is the test
+			ctx, cancel := context.WithTimeout(context.Background(), x.dl(1500))
+			res := x.calls(x.nodes, func(u uint16) ([]byte, error) { return x.sign(ctx, u, op.Topic) })
+			alive := ctx.Err() == nil
+			cancel()
+			for _, r := range res {
+				if r.err != nil && alive {
+					p.Count("sessions_failed_with_live_context", 1)
+					break
+				}
+			}
+			time.Sleep(5 * time.Millisecond)
 		case "sign-cancel":
 			s := x.signers(rng)
 			x.pick(op.Topic, s)
@@ -835,6 +850,9 @@ func genC12(rng *rand.Rand, idx int, e common.Env) c12hist {
 		} else {
 			kinds = []string{"keygen-ok", "keygen-with-foreign-traffic", "keygen-duplicate", "keygen-missing-caller", "keygen-cancel", "keygen-cancel-held", "keygen-second-sync-lost", "keygen-reissued-while-returning", "sign-ok", "sign-ok", "sign-too-few", "sign-cancel", "sign-cancel-held",
 				"sign-reuse-at-once", "sign-two-topics", "sign-duplicate", "sign-duplicate-racing", "late-replay", "sign-with-foreign-traffic", "keygen-and-sign-at-once"}
+			if h.Mode == "loud" && h.N > 3 && h.Idx%2 == 0 {
+				kinds = append(kinds, "sign-too-many", "sign-too-many")
+			}
 		}
 		k := kinds[rng.Intn(len(kinds))]
 		if strings.HasPrefix(k, "keygen") {
@@ -843,7 +861,7 @@ func genC12(rng *rand.Rand, idx int, e common.Env) c12hist {
 		h.Ops = append(h.Ops, c12op{Kind: k, Topic: t, Arg: rng.Intn(40)})
 		// a failed / cancelled operation is followed by a successful one on the same topic: the residue test proper
 		switch k {
-		case "sign-too-few", "sign-cancel", "sign-cancel-held", "sign-duplicate", "sign-duplicate-racing":
+		case "sign-too-few", "sign-too-many", "sign-cancel", "sign-cancel-held", "sign-duplicate", "sign-duplicate-racing":
 			if h.Mode != "silent" {
 				h.Ops = append(h.Ops, c12op{Kind: "sign-ok", Topic: t})
 			}
